@@ -373,6 +373,141 @@ func configs(tier string) []cfg {
 	return out
 }
 
+// capacityChecks: what lies beyond len() of a slice is caller memory too.  Every
+// sequence of 2..3 Reads with all results kept alive, then one result overwritten
+// over its full capacity: no other result and no block may change.  Write
+// buffers of every (len, cap) on a grid: refused unless len is the block size,
+// never written to, and only len bytes are stored.  ReadTo buffers with spare
+// capacity: the spare bytes stay untouched.
+func capacityChecks(acc *ev.Acc) {
+	viol := func(name, what, msg string) {
+		acc.Violate(ev.Violation{Key: "C09/capacity/" + name + "/" + what, Msg: name + ": " + msg, Replay: map[string]any{"cfg": cfg{N: 0}, "path": []int{}, "mode": "capacity"}})
+	}
+	for _, name := range implNames {
+		use := func(im *impl) {
+			if im.k != nil {
+				simunix.K = im.k
+			}
+			if im.global {
+				disk.Init(im.d)
+			}
+		}
+		read := func(im *impl, a uint64) []byte {
+			if im.global {
+				return disk.Read(a)
+			}
+			return im.d.Read(a)
+		}
+		write := func(im *impl, a uint64, b []byte) {
+			if im.global {
+				disk.Write(a, b)
+			} else {
+				im.d.Write(a, b)
+			}
+		}
+		// 1. read results kept alive
+		var seqs [][]uint64
+		for a := uint64(0); a < 2; a++ {
+			for b := uint64(0); b < 2; b++ {
+				seqs = append(seqs, []uint64{a, b})
+				for c := uint64(0); c < 2; c++ {
+					seqs = append(seqs, []uint64{a, b, c})
+				}
+			}
+		}
+		pats := []string{"A", "B"}
+		for _, sq := range seqs {
+			for victim := range sq {
+				im := mk(name, 2)
+				use(im)
+				write(im, 0, libh.Pat("A"))
+				write(im, 1, libh.Pat("B"))
+				var held [][]byte
+				for _, a := range sq {
+					held = append(held, read(im, a))
+				}
+				v := held[victim]
+				full := v[:cap(v)]
+				for i := range full {
+					full[i] = 0xDD
+				}
+				acc.Add("transitions", int64(len(sq)+3))
+				acc.Add("capacity_histories", 1)
+				for j, h := range held {
+					if j != victim && libh.Classify(h) != pats[sq[j]] {
+						viol(name, fmt.Sprintf("read-results-alias/%v/%d", sq, victim), fmt.Sprintf("Reads of %v kept alive; overwriting result #%d over its full capacity (len %d, cap %d) changed result #%d to %s", sq, victim, len(v), cap(v), j, libh.Classify(h)))
+					}
+				}
+				for a := uint64(0); a < 2; a++ {
+					if got := libh.Classify(read(im, a)); got != pats[a] {
+						viol(name, fmt.Sprintf("read-result-aliases-disk/%v/%d", sq, victim), fmt.Sprintf("overwriting a Read result over its full capacity changed block %d to %s", a, got))
+					}
+				}
+			}
+		}
+		// 2. write buffers on a (len, cap) grid
+		for _, l := range []int{0, 1, 4095, 4096, 4097, 8191, 8192} {
+			for _, extra := range []int{0, 1, 4096, 8192} {
+				im := mk(name, 2)
+				use(im)
+				write(im, 0, libh.Pat("A"))
+				backing := make([]byte, l+extra)
+				for i := range backing {
+					backing[i] = byte(0x40 + i%7)
+				}
+				before := append([]byte(nil), backing...)
+				b := backing[:l]
+				p := libh.Try(func() { write(im, 0, b) })
+				acc.Add("transitions", 2)
+				acc.Add("capacity_histories", 1)
+				what := fmt.Sprintf("write-len%d-cap%d", l, l+extra)
+				if (p == "") != (l == 4096) {
+					viol(name, what+"/refusal", fmt.Sprintf("Write of a buffer with len %d cap %d: refused=%q (only a %d-byte buffer is a block)", l, l+extra, p, 4096))
+				}
+				if string(backing) != string(before) {
+					viol(name, what+"/caller-memory", fmt.Sprintf("Write of a buffer with len %d cap %d changed the caller's memory", l, l+extra))
+				}
+				got := read(im, 0)
+				want := libh.Pat("A")
+				if l == 4096 {
+					want = before[:4096]
+				}
+				if string(got) != string(want) {
+					viol(name, what+"/contents", fmt.Sprintf("after Write of a buffer with len %d cap %d block 0 holds %s (neither the old block nor the buffer's first len bytes)", l, l+extra, libh.Classify(got)))
+				}
+				if string(read(im, 1)) != string(make([]byte, 4096)) {
+					viol(name, what+"/other-block", fmt.Sprintf("Write(0) of a buffer with len %d cap %d changed block 1", l, l+extra))
+				}
+			}
+		}
+		// 3. ReadTo into a block-sized window of a larger array
+		for _, extra := range []int{1, 4096} {
+			im := mk(name, 2)
+			use(im)
+			write(im, 1, libh.Pat("B"))
+			backing := make([]byte, 4096+extra)
+			for i := range backing {
+				backing[i] = 0xEE
+			}
+			if im.global {
+				disk.Get().ReadTo(1, backing[:4096])
+			} else {
+				im.d.ReadTo(1, backing[:4096])
+			}
+			acc.Add("transitions", 2)
+			if libh.Classify(backing[:4096]) != "B" {
+				viol(name, fmt.Sprintf("readto-cap%d/contents", 4096+extra), "ReadTo into a window of a larger array did not fill the window")
+			}
+			for _, x := range backing[4096:] {
+				if x != 0xEE {
+					viol(name, fmt.Sprintf("readto-cap%d/spare", 4096+extra), "ReadTo wrote beyond len(buf) into the caller's spare capacity")
+					break
+				}
+			}
+		}
+	}
+}
+
 // globalRebind: the package-level wrappers must follow Init: every sequence of
 // <=2 wrapper operations before and after re-pointing the global disk at a disk
 // of another size (and another kind), against two independent register arrays.
@@ -496,9 +631,13 @@ func main() {
 			fmt.Fprintln(os.Stderr, err)
 			os.Exit(3)
 		}
-		if rf.Replay.Mode == "global-rebind" {
+		if rf.Replay.Mode == "global-rebind" || rf.Replay.Mode == "capacity" {
 			a := ev.NewAcc()
-			globalRebind(a)
+			if rf.Replay.Mode == "capacity" {
+				capacityChecks(a)
+			} else {
+				globalRebind(a)
+			}
 			for i, v := range a.Violations {
 				if i < 5 {
 					fmt.Println(v.Msg)
@@ -566,6 +705,7 @@ func main() {
 		}
 		if i == n-1 {
 			globalRebind(acc)
+			capacityChecks(acc)
 		}
 		acc.Add("traces_validated_against_impl", validated)
 		acc.EmitChild()
@@ -584,7 +724,7 @@ func main() {
 	}
 	os.Exit(acc.Done(ev.Finish{
 		Prop: "C09", Tier: *tier, Level: "model_checking", Start: start,
-		Rule:        "explicit-state BFS over histories of Write(a,A|B), Write(a,buf_i), Write(0,len 0/4095/4097), Read(a), ReadTo(a,buf_i), Mutate(buf_i), Mutate(last passed/returned slice), Size, Barrier with a in {0..N, 2^63, 2^64-1} on disks of N blocks; each history replayed on fresh real MemDisk, FileDisk (over simunix), the async_disk aliases and the global wrappers; state key = reference-model state (pattern id per block, per caller buffer, last slice); after the last operation the result, refusal, full disk dump, caller buffers and Size are compared with the register-array reference; simunix traces of the file disk replayed call by call on the real kernel; plus every sequence of <=2 wrapper operations before and after re-pointing the global disk (Init) at a disk of another size or kind",
-		Assumptions: []string{"simunix models the kernel for FileDisk (validated per history by replay on the real kernel)", "ReadTo buffers are block-sized (a wrong-sized read buffer is outside the stated property)"},
+		Rule:        "explicit-state BFS over histories of Write(a,A|B), Write(a,buf_i), Write(0,len 0/4095/4097), Read(a), ReadTo(a,buf_i), Mutate(buf_i), Mutate(last passed/returned slice), Size, Barrier with a in {0..N, 2^63, 2^64-1} on disks of N blocks; each history replayed on fresh real MemDisk, FileDisk (over simunix), the async_disk aliases and the global wrappers; state key = reference-model state (pattern id per block, per caller buffer, last slice); after the last operation the result, refusal, full disk dump, caller buffers and Size are compared with the register-array reference; simunix traces of the file disk replayed call by call on the real kernel; plus every sequence of <=2 wrapper operations before and after re-pointing the global disk (Init) at a disk of another size or kind; plus capacity isolation: 2..3 Read results kept alive and one overwritten over its full capacity, Write buffers on a (len, cap) grid, ReadTo into a window of a larger array",
+		Assumptions: []string{"simunix models the kernel for FileDisk (validated per history by replay on the real kernel)", "ReadTo buffers have len == block size (a wrong-sized read buffer is outside the stated property)"},
 	}))
 }
